@@ -73,7 +73,15 @@ def derivative(expr: e.Expr, t_string: str):
             #   term to ensure that the result has the correct symmetry.
             #   Also replace the removed tensor by a Dummy Variable x.
             #   This allows to compute the symbolic derivative with diff.
-            tensor_sym = obj.symmetry()
+            # Only permutations that do not involve a target index may be
+            # applied to the remaining term.
+            tensor_sym = {
+                perms: factor for perms, factor in obj.symmetry().items()
+                if not any(
+                    s.name in target_names_by_space.get(s.space_and_spin, ())
+                    for perm in perms for s in perm
+                )
+            }
             deriv_contrib *= Rational(1, len(tensor_sym) + 1)
             symmetrized_deriv_contrib = deriv_contrib.sympy * x**exponent
             for perms, factor in tensor_sym.items():
